@@ -1,6 +1,270 @@
-From Coq Require Import ZArith NArith List Bool.
-From CL Require Import Base.Sx Base.Res Base.Str Model.AddRemove Model.Compare.
-Import ListNotations.
+(* C03 — comparison reports exactly the missing, obsolete and changed strings.
 
-Example C03_example_placeholder : stats_fields stats0 = [0;0;0;0;0;0;0;0;0]%nat.
-Proof. reflexivity. Qed.
+   [compare eqb veq keyname flt chk merge ref l10n] (Model/Compare.v) is
+   ContentComparer.compare after both files were parsed: AddRemove over the two
+   key sequences (the model of C20, imported), one branch per step, the stats
+   dict, the notify calls, `missings` and `skips`.  The statements hold for ALL
+   entity lists, duplicates included; whenever an entity is looked up by key it
+   is the LAST entity with that key (KeyedTuple), which the statements say
+   explicitly through
+
+     last_ent ents k e := exists pre post, ents = pre ++ e :: post /\ c_key e = k /\
+                                           Forall (fun e' => c_key e' <> k) post
+     present ents k    := exists e, last_ent ents k e /\ c_junk e = false
+     same_val / diff_val ref l10n k :=
+        exists er el, last_ent ref k er /\ last_ent l10n k el /\ equals er el = true / false
+     words_at ents k   := count_words() of the last entity with key k
+     card P n          := exists L, NoDup L /\ (forall k, In k L <-> P k) /\ n = length L
+     card_sum P f n w  := ... /\ n = length L /\ w = list_sum (map f L)
+
+   (Proofs/CompareSpec.v, Proofs/CompareProofs.v).  Theorems only; each is
+   closed by a lemma of Proofs/. *)
+From Coq Require Import ZArith NArith List Bool Arith Permutation.
+From CL Require Import Base.Sx Base.Res Base.Str Model.AddRemove Model.Compare
+  Proofs.AddRemoveProofs Proofs.CompareSpec Proofs.CompareProofs Proofs.CompareKeys
+  Generated.C03Facts.
+Import ListNotations.
+Local Open Scope nat_scope.
+
+Section C03.
+Context {K V : Type} (eqb : K -> K -> bool) (veq : V -> V -> bool) (keyname : K -> bool).
+Hypothesis eqb_eq : forall a b, eqb a b = true <-> a = b.
+Context (flt : K -> verdict) (chk : @cent K V -> @cent K V -> list finding) (merge : bool).
+Context (ref l10n : list (@cent K V)).
+
+Notation kr := (map c_key ref).
+Notation kl := (map c_key l10n).
+Notation run := (compare eqb veq keyname flt chk merge ref l10n).
+
+(* AddRemove drives one iteration per distinct key of either file, however often
+   keys repeat (C20_once needs duplicate-free sequences; this does not) *)
+Theorem C03_one_step_per_key :
+  NoDup (map snd (addremove eqb kr kl)) /\
+  forall k, In k (map snd (addremove eqb kr kl)) <-> In k kr \/ In k kl.
+Proof. split; [apply (steps_NoDup eqb eqb_eq)|intros k; apply (steps_In eqb keyname eqb_eq)]. Qed.
+
+(* missing = the reference keys absent from the localization whose (last)
+   reference entity is not Junk and for which the filter says "error": the list
+   handed to merge enumerates exactly these keys once, the counter is its length,
+   the word counter the sum of the reference word counts *)
+Theorem C03_missing : forall r, run = Ok r ->
+  NoDup (a_missings r) /\
+  (forall k, In k (a_missings r) <->
+     In k kr /\ ~ In k kl /\ flt k = VError /\ present ref k) /\
+  s_missing (a_stats r) = length (a_missings r) /\
+  s_missing_w (a_stats r) = list_sum (map (words_at eqb ref) (a_missings r)).
+Proof. exact (compare_missing eqb veq keyname eqb_eq flt chk merge ref l10n). Qed.
+
+(* report = likewise with the verdict "warning"; what an observer with this
+   filter records: a missing / obsolete key iff it is not ignored; an ignored
+   key appears nowhere *)
+Theorem C03_report : forall r, run = Ok r ->
+  card (fun k => In k kr /\ ~ In k kl /\ flt k = VWarning /\ present ref k)
+       (s_report (a_stats r)) /\
+  (forall k,
+     (In (NMissing k) (details flt r) <->
+        In k kr /\ ~ In k kl /\ flt k <> VIgnore /\ present ref k) /\
+     (In (NObsolete k) (details flt r) <->
+        In k kl /\ ~ In k kr /\ flt k <> VIgnore /\ present l10n k)) /\
+  (forall k, flt k = VIgnore ->
+     ~ In k (a_missings r) /\ ~ In (NMissing k) (details flt r) /\
+     ~ In (NObsolete k) (details flt r)).
+Proof.
+  intros r H. split; [exact (compare_report eqb veq keyname eqb_eq flt chk merge ref l10n r H)|].
+  pose proof (compare_details eqb veq keyname eqb_eq flt chk merge ref l10n r H) as Hd.
+  split; [exact Hd|]. intros k Hk.
+  destruct (compare_missing eqb veq keyname eqb_eq flt chk merge ref l10n r H) as (_ & Hm & _).
+  destruct (Hd k) as [H1 H2]. rewrite Hm, H1, H2, Hk.
+  repeat split; intros (_ & _ & Hf & _); try discriminate; apply Hf; reflexivity.
+Qed.
+
+(* obsolete = the localization keys absent from the reference, not Junk, not ignored *)
+Theorem C03_obsolete : forall r, run = Ok r ->
+  card (fun k => In k kl /\ ~ In k kr /\ flt k <> VIgnore /\ present l10n k)
+       (s_obsolete (a_stats r)).
+Proof. exact (compare_obsolete eqb veq keyname eqb_eq flt chk merge ref l10n). Qed.
+
+(* every shared key is counted in exactly one of keys / unchanged / changed:
+   keys iff the key-binding test holds, else unchanged iff the last reference
+   entity equals the last localized one; with the reference word counts *)
+Theorem C03_shared_once : forall r, run = Ok r ->
+  card (fun k => shared ref l10n k /\ keyname k = true) (s_keys (a_stats r)) /\
+  card_sum (fun k => shared ref l10n k /\ keyname k = false /\ same_val eqb veq ref l10n k)
+           (words_at eqb ref) (s_unchanged (a_stats r)) (s_unchanged_w (a_stats r)) /\
+  card_sum (fun k => shared ref l10n k /\ keyname k = false /\ diff_val eqb veq ref l10n k)
+           (words_at eqb ref) (s_changed (a_stats r)) (s_changed_w (a_stats r)) /\
+  (forall k, shared ref l10n k ->
+     let A := keyname k = true in
+     let B := keyname k = false /\ same_val eqb veq ref l10n k in
+     let C := keyname k = false /\ diff_val eqb veq ref l10n k in
+     (A /\ ~ B /\ ~ C) \/ (~ A /\ B /\ ~ C) \/ (~ A /\ ~ B /\ C)).
+Proof.
+  intros r H.
+  destruct (compare_shared eqb veq keyname eqb_eq flt chk merge ref l10n r H) as (H1 & H2 & H3).
+  repeat split; try assumption.
+  exact (shared_classes eqb veq keyname eqb_eq ref l10n).
+Qed.
+
+(* nothing filtered, no Junk in the reference: the four counters partition the
+   distinct reference keys *)
+Theorem C03_partition : forall r,
+  (forall k, flt k = VError) -> (forall e, In e ref -> c_junk e = false) ->
+  run = Ok r ->
+  card (fun k => In k kr)
+       (s_missing (a_stats r) + s_changed (a_stats r) + s_unchanged (a_stats r) +
+        s_keys (a_stats r)).
+Proof.
+  intros r Hf Hj H.
+  exact (compare_partition eqb veq keyname eqb_eq flt chk merge ref l10n r Hf Hj H).
+Qed.
+
+(* the three word counters are the sums of the REFERENCE word counts over the
+   missing, unchanged and changed keys *)
+Theorem C03_words : forall r, run = Ok r ->
+  card_sum (fun k => In k kr /\ ~ In k kl /\ flt k = VError /\ present ref k)
+           (words_at eqb ref) (s_missing (a_stats r)) (s_missing_w (a_stats r)) /\
+  card_sum (fun k => shared ref l10n k /\ keyname k = false /\ same_val eqb veq ref l10n k)
+           (words_at eqb ref) (s_unchanged (a_stats r)) (s_unchanged_w (a_stats r)) /\
+  card_sum (fun k => shared ref l10n k /\ keyname k = false /\ diff_val eqb veq ref l10n k)
+           (words_at eqb ref) (s_changed (a_stats r)) (s_changed_w (a_stats r)) /\
+  (forall k e, last_ent ref k e -> words_at eqb ref k = c_words e).
+Proof.
+  intros r H.
+  destruct (compare_missing eqb veq keyname eqb_eq flt chk merge ref l10n r H) as (M1 & M2 & M3 & M4).
+  destruct (compare_shared eqb veq keyname eqb_eq flt chk merge ref l10n r H) as (_ & H2 & H3).
+  split; [exists (a_missings r); auto|]. repeat split; try assumption.
+  exact (words_at_last eqb eqb_eq ref).
+Qed.
+
+(* a key occurring n > 1 times is announced once with n: a warning for the
+   reference, an error for the localization, and nothing else is
+   (kcount eqb k l := length (filter (eqb k) l)) *)
+Theorem C03_duplicates : forall r, run = Ok r -> forall k n,
+  (In (NDup false k n) (a_notes r) <-> n = kcount eqb k kr /\ 1 < n) /\
+  (In (NDup true k n) (a_notes r) <-> n = kcount eqb k kl /\ 1 < n).
+Proof. exact (compare_duplicates eqb veq keyname eqb_eq flt chk merge ref l10n). Qed.
+
+(* the comparison raises only through Junk.equals: a reference Junk whose
+   generated key is also a key of the localization and is not a key binding *)
+Theorem C03_no_raise :
+  (forall k e, last_ent ref k e -> c_junk e = true -> In k kl -> keyname k = true) ->
+  exists r, run = Ok r.
+Proof. exact (compare_no_raise eqb veq keyname eqb_eq flt chk merge ref l10n). Qed.
+
+End C03.
+
+(* ContentComparer.add for a missing file: unless the file is ignored, `missing`
+   is the number of non-Junk reference entities (each one, also when keys repeat)
+   and `missing_w` the sum of their word counts ... *)
+Theorem C03_add_file : forall (K V : Type) (v : verdict) (ents : list (@cent K V)),
+  add_file v ents =
+  (if is_ignore v then None
+   else Some (length (filter nonjunk ents), list_sum (map c_words (filter nonjunk ents)))) /\
+  length (filter nonjunk ents) + length (filter (fun e => negb (nonjunk e)) ents) = length ents.
+Proof.
+  intros K V v ents. split; [apply add_file_counts|apply filter_partition_length].
+Qed.
+
+(* ... which is what comparing with an empty localization reports, provided no
+   key repeats in the reference *)
+Theorem C03_add_file_is_compare_empty :
+  forall (K V : Type) (eqb : K -> K -> bool) (veq : V -> V -> bool) (keyname : K -> bool),
+  (forall a b, eqb a b = true <-> a = b) ->
+  forall chk merge (ref : list (@cent K V)) r,
+  NoDup (map c_key ref) ->
+  compare eqb veq keyname (fun _ => VError) chk merge ref [] = Ok r ->
+  add_file VError ref = Some (s_missing (a_stats r), s_missing_w (a_stats r)).
+Proof. intros K V eqb veq keyname H. exact (add_file_is_compare_empty eqb veq keyname H). Qed.
+
+(* the instance that is extracted and run against the implementation: Python
+   keys; the key-binding test, computed by the regex engine on the generated
+   keyRE, holds exactly of the str keys that contain "key" or "Key" *)
+Theorem C03_python_keys : forall a b : pykey, pykey_eqb a b = true <-> a = b.
+Proof. exact pykey_eqb_eq. Qed.
+
+Theorem C03_key_binding : forall k : pykey,
+  py_keyname k = true <->
+  exists s, k = KS s /\
+            exists a c b, s = a ++ c :: 101%N :: 121%N :: b /\ (c = 107%N \/ c = 75%N).
+Proof. exact py_keyname_spec. Qed.
+
+(* the full "never raises" statement is false of the faithful model: a
+   localized key equal to the generated key of a reference Junk *)
+Theorem C03_no_raise_refuted :
+  exists (ref l10n : list (@cent pykey Z)),
+    compare pykey_eqb Z.eqb py_keyname (fun _ => VError) (fun _ _ => []) false ref l10n
+    = Raise RuntimeError.
+Proof.
+  exists [mkcent (KS [95; 106]%N) 0%Z 0 true 0%Z], [mkcent (KS [95; 106]%N) 1%Z 1 false 1000%Z].
+  vm_compute. reflexivity.
+Qed.
+
+(* ---- non-vacuity ------------------------------------------------------------------ *)
+Definition ex_s (l : list nat) : pykey := KS (map N.of_nat l).
+(* reference: a=1  openkey=2  b=3(2 words)  a=4(3 words, the last "a")  junk
+   l10n:      b=3  c=9  openkey=8  a=4  junk  c=10 *)
+Definition ex_ref : list (@cent pykey Z) :=
+  [mkcent (ex_s [97]) 1%Z 1 false 0%Z; mkcent (ex_s [111; 107; 101; 121]) 2%Z 1 false 1%Z;
+   mkcent (ex_s [98]) 3%Z 2 false 2%Z; mkcent (ex_s [97]) 4%Z 3 false 3%Z;
+   mkcent (ex_s [95; 49]) 5%Z 0 true 4%Z; mkcent (ex_s [100]) 6%Z 5 false 5%Z].
+Definition ex_l10n : list (@cent pykey Z) :=
+  [mkcent (ex_s [98]) 7%Z 2 false 1000%Z; mkcent (ex_s [99]) 9%Z 1 false 1001%Z;
+   mkcent (ex_s [111; 107; 101; 121]) 8%Z 1 false 1002%Z; mkcent (ex_s [97]) 4%Z 3 false 1003%Z;
+   mkcent (ex_s [95; 50]) 11%Z 0 true 1004%Z; mkcent (ex_s [99]) 10%Z 1 false 1005%Z].
+
+(* a concrete run, evaluated by the kernel: d missing (5 words), c obsolete,
+   b changed (2 words), a unchanged (the LAST a, 3 words), openkey a key binding;
+   the notify calls in order; the summary with 2 errors and 2 warnings *)
+Example C03_example :
+  match compare pykey_eqb Z.eqb py_keyname (fun _ => VError) (fun _ _ => []) true ex_ref ex_l10n with
+  | Ok r =>
+      stats_fields (a_stats r) = [1; 5; 0; 1; 1; 2; 1; 3; 1] /\
+      a_missings r = [ex_s [100]] /\ a_skips r = [1004%Z] /\
+      a_notes r = [NDup false (ex_s [97]) 2; NDup true (ex_s [99]) 2; NObsolete (ex_s [99]);
+                   NJunk 1004%Z; NRefJunk; NMissing (ex_s [100])] /\
+      summary (fun _ => VError) r = [2; 2; 1; 5; 0; 1; 1; 2; 1; 3; 1]
+  | Raise _ => False
+  end.
+Proof. vm_compute. repeat split; reflexivity. Qed.
+
+(* the premises of C03_partition and C03_no_raise hold of a non-trivial input *)
+Example C03_example_partition :
+  let ref := filter (fun e => negb (c_junk e)) ex_ref in
+  (forall e, In e ref -> c_junk e = false) /\
+  match compare pykey_eqb Z.eqb py_keyname (fun _ => VError) (fun _ _ => []) false ref ex_l10n with
+  | Ok r => s_missing (a_stats r) + s_changed (a_stats r) + s_unchanged (a_stats r) +
+            s_keys (a_stats r) = 4
+  | Raise _ => False
+  end.
+Proof.
+  split; [|vm_compute; reflexivity].
+  intros e He. apply filter_In in He. destruct He as [_ He]. destruct (c_junk e); [discriminate|reflexivity].
+Qed.
+
+(* a filter: d is only reported, c is ignored *)
+Example C03_example_filter :
+  let flt := fun k => if pykey_eqb k (ex_s [100]) then VWarning
+                      else if pykey_eqb k (ex_s [99]) then VIgnore else VError in
+  match compare pykey_eqb Z.eqb py_keyname flt (fun _ _ => []) false ex_ref ex_l10n with
+  | Ok r => stats_fields (a_stats r) = [0; 0; 1; 0; 1; 2; 1; 3; 1] /\
+            details flt r = [NDup false (ex_s [97]) 2; NDup true (ex_s [99]) 2;
+                             NJunk 1004%Z; NRefJunk; NMissing (ex_s [100])]
+  | Raise _ => False
+  end.
+Proof. vm_compute. split; reflexivity. Qed.
+
+Example C03_example_add_file :
+  add_file VError ex_ref = Some (5, 12) /\ add_file VIgnore ex_ref = None.
+Proof. vm_compute. split; reflexivity. Qed.
+
+(* the stats dictionary of the source has exactly the nine counters of the model, in this order *)
+Example C03_stats_keys :
+  c03_stats_keys =
+  map (map N.of_nat)
+      [[109; 105; 115; 115; 105; 110; 103]; [109; 105; 115; 115; 105; 110; 103; 95; 119];
+       [114; 101; 112; 111; 114; 116]; [111; 98; 115; 111; 108; 101; 116; 101];
+       [99; 104; 97; 110; 103; 101; 100]; [99; 104; 97; 110; 103; 101; 100; 95; 119];
+       [117; 110; 99; 104; 97; 110; 103; 101; 100];
+       [117; 110; 99; 104; 97; 110; 103; 101; 100; 95; 119]; [107; 101; 121; 115]] /\
+  length c03_stats_keys = length (stats_fields stats0).
+Proof. vm_compute. split; reflexivity. Qed.
